@@ -395,10 +395,20 @@ func (v *Verifier) execStmt(fr *Frame, st *State, s ast.Stmt) []*State {
 		v.notes = append(v.notes, fmt.Sprintf("%s: go statement treated as no-op for the caller", v.prog.fset.Position(x.Pos())))
 		return []*State{st}
 	case *ast.DeferStmt:
-		if v.prog.effectFreeCall(fr, x.Call) {
+		if v.prog.effectFreeCall(fr, x.Call) && !v.prog.isPoolPut(fr, x.Call) {
 			return []*State{st}
 		}
-		panic(unsupportedf(x.Pos(), "defer"))
+		// A deferred call runs when the frame returns (runDefers), last registered first. The call's
+		// operands are evaluated then, not at the defer statement: exact when they are not reassigned in
+		// between (receivers and arguments that are locals assigned once, the idiom `defer x.Release()`).
+		if len(fr.loopEntry) > 0 {
+			panic(unsupportedf(x.Pos(), "defer inside a loop"))
+		}
+		if _, isLit := x.Call.Fun.(*ast.FuncLit); isLit {
+			panic(unsupportedf(x.Pos(), "defer of a function literal"))
+		}
+		st.defers = append(st.defers, deferred{fr, x.Call})
+		return []*State{st}
 	}
 	panic(unsupportedf(s.Pos(), "statement %T", s))
 }
@@ -990,6 +1000,7 @@ func (v *Verifier) execRange(fr *Frame, st *State, x *ast.RangeStmt, label strin
 	case *types.Slice:
 		sv := v.eval(fr, st, x.X).(SliceVal)
 		n = sv.Len
+		v.releasedCheck(fr, st, x.Pos(), sv.Ref)
 		elemAt = func(s *State, i *Term) Val { return v.eng.heapReadElem(s, sv.Sh.Elem, sv.Ref, v.iAdd(sv.Off, i)) }
 	case *types.Array:
 		av, ok := v.eval(fr, st, x.X).(ArrVal)
@@ -1129,4 +1140,29 @@ func (v *Verifier) execRange(fr *Frame, st *State, x *ast.RangeStmt, label strin
 		}
 	}()
 	return v.execLoop(fr, st, x, x.Pos(), label, cond, x.Body.List, post)
+}
+
+
+// runDefers executes, on the returning path st of frame fr, the deferred calls that path has
+// registered for fr (last first). The results of the function have been computed already.
+func (v *Verifier) runDefers(fr *Frame, st *State) {
+	if len(st.defers) == 0 {
+		return
+	}
+	ctl, res, rp := st.ctl, st.results, st.retPos
+	for i := len(st.defers) - 1; i >= 0; i-- {
+		d := st.defers[i]
+		if d.fr != fr {
+			continue
+		}
+		st.defers = append(st.defers[:i:i], st.defers[i+1:]...)
+		st.ctl = CtlNormal
+		n := len(st.pc)
+		_ = n
+		v.eval(fr, st, d.call)
+		if st.ctl != CtlNormal {
+			panic(unsupportedf(d.call.Pos(), "deferred call does not return normally"))
+		}
+	}
+	st.ctl, st.results, st.retPos = ctl, res, rp
 }
